@@ -35,7 +35,10 @@ func (lsm *LSM) NewIterators(opt *utils.Options) []utils.Iterator {
 	if mem != nil {
 		iter.iters = append(iter.iters, mem.NewIterator(opt))
 	}
-	for _, imm := range immutables {
+	// Newest immutable first (lsm.immutables is kept in rotation order): on equal
+	// internal keys the merge keeps the copy of the earlier iterator, as Get does.
+	for i := len(immutables) - 1; i >= 0; i-- {
+		imm := immutables[i]
 		if imm == nil {
 			continue
 		}
